@@ -12,7 +12,10 @@ fn eq_expect(a: i128, b: i128) -> Option<bool> {
     if a == b {
         Some(true)
     } else if a == -b && a.abs() < NPC {
-        None // the one documented equality between different counts: statement allows it, does not demand it
+        // the one documented equality between different counts. It is one relation, not a pair-by-pair choice: it holds
+        // for this pair exactly if it holds for the reference pair (1 ns, -1 ns) of the same library
+        static REF: std::sync::OnceLock<bool> = std::sync::OnceLock::new();
+        Some(*REF.get_or_init(|| mk(1) == mk(-1)))
     } else {
         Some(false)
     }
@@ -276,7 +279,7 @@ pub fn run(rep: &mut Report) {
     let dl = lattice::dl(if deep { 768 } else { 64 }, !q);
     let n = dl.len() as u64;
     rep.bound("DL_size", n);
-    rep.rule = "all ordered pairs of the duration lattice under == != < <= > >= cmp partial_cmp min max; all triples of a zero-crossing / adjacent-century sub-lattice for transitivity; sort of the sub-lattice from 4 permutations; DL x 9 units; a+b>a on all pairs away from saturation; operands *produced by real operations* (neg, abs, double neg, +0, (a-a)+a, *1, *-1, /1) compared with the same count built directly and with its two neighbours. Oracle: the same relation on the i128 counts; `x == -x` within one century is a don't-care. Non-trivial = century fields differ by one, operands straddle zero, a+b = one century, or exact negations.".into();
+    rep.rule = "all ordered pairs of the duration lattice under == != < <= > >= cmp partial_cmp min max; all triples of a zero-crossing / adjacent-century sub-lattice for transitivity; sort of the sub-lattice from 4 permutations; DL x 9 units; a+b>a on all pairs away from saturation; operands *produced by real operations* (neg, abs, double neg, +0, (a-a)+a, *1, *-1, /1) compared with the same count built directly and with its two neighbours. Oracle: the same relation on the i128 counts; `x == -x` within one century holds for every such pair or for none (judged against the pair 1 ns, -1 ns). Non-trivial = century fields differ by one, operands straddle zero, a+b = one century, or exact negations.".into();
     rep.assumptions = vec!["Duration::from_parts/to_parts exact (C02)".into()];
     sweep(rep, "c03.pair", n * n, |i, out| j_pair(dl[(i / n) as usize], dl[(i % n) as usize], out));
     let sub = sublattice();
@@ -285,6 +288,12 @@ pub fn run(rep: &mut Report) {
     sweep(rep, "c03.triple", m * m * m, |i, out| j_triple(sub[(i / (m * m)) as usize], sub[((i / m) % m) as usize], sub[(i % m) as usize], out));
     assert!(m % 37 != 0);
     sweep(rep, "c03.sort", 4, |i, out| j_sort(i, &sub, out));
+    // order independence: comparisons with units and of mirrored pairs, in every order
+    {
+        let oa: [i128; 6] = [3 * NS_DAY, 3_600 * NS_S, 60 * NS_S, -3_600 * NS_S, NPC / 2, -NPC / 2];
+        let ou = [Unit::Day, Unit::Week, Unit::Hour, Unit::Minute];
+        crate::engine::order_pairs(rep, "c03.order", 24 + 36, |i, out| if i < 24 { j_unit(oa[(i / 4) as usize], ou[(i % 4) as usize], out) } else { j_pair(oa[((i - 24) / 6) as usize], oa[((i - 24) % 6) as usize], out) });
+    }
     sweep(rep, "c03.unit", n * 9, |i, out| j_unit(dl[(i / 9) as usize], UNITS[(i % 9) as usize], out));
     sweep(rep, "c03.addmono", n * n, |i, out| j_addmono(dl[(i / n) as usize], dl[(i % n) as usize], out));
     sweep(rep, "c03.derived", n * 8, |i, out| j_derived((i % 8) as usize, dl[(i / 8) as usize], out));
